@@ -31,6 +31,12 @@ CHECKS = {
     text="Every chain of up to 2 (thorough: 3) casts - into/from array, component and uint; free functions, From*/Into*/Try* traits, borrowing As* traits, mirrored traits and the traits on &holder; by value, ref, mut, Box, [C;2], slice, mutable slice, boxed slice and Vec; map_vec_in_place / map_slice_box_in_place - from every buffer with n in 1..4, up to 8 components and Vec capacities up to 10 including non-multiples (8 313 / 82 911 / 760 617 chains) is executed on Luma, Lumaa, all 26 colour structs, Alpha, PreAlpha and Packed with u8/u16/u32/f32/f64 (u64/u128 for uint casts). After every call TLC requires the flat contents (bit-exact tokens written by field name, declared order, alpha last), length, observed capacity, address identity, size_of/align_of, error kind (length vs capacity vs panic) and the handed-back buffer to equal the model's next state.",
     ref="DESIGN.md section 4 C04",
     note=TRUST + "; Vec::capacity/as_ptr/size_of/align_of as observations; layout soundness is observed (values, addresses, sizes, alignments, std's debug precondition checks, Miri on sampled scenarios in the thorough tier), not proved - the specification does not model provenance; by-value component arrays only for 2n and 2n+1 elements; a cast that kills the process is located by rerunning with --crashlog and reported as a violation; Vec capacities are whatever the allocator gave"),
+ "C06": dict(
+    technique="explicit TLA+ contract on exact values (Stimulus.tla: limb integers, exact dyadics); TLC model run (satisfiable, implies the round trips, rejects wrong answers) with emitted lattice cases; TLC trace validation of recorded palette calls; thorough: exhaustive run-length sweeps",
+    category="model_checking",
+    text="Stimulus.tla decides saturation (0 / MAX incl. NaN, +-inf), nearest-integer rounding within one rounding of value x MAX (53 significant bits for u64/u128), exact ends, exact widening (bit replication), narrowing within one rounding, monotonicity and the statement's round trips by integer arithmetic. TLC checks the contract on all u8, lattices of u16...u128 and of floats and validates every recorded call for all 49 ordered format pairs plus Rgb/Rgba/Luma/Lumaa into_format/from_format (77k events + 4.8k model-emitted cases in quick). Thorough: f32->u8/u16 over all 2^32 bit patterns and u32->u8/u16 over all 2^32 codes as runs judged at both ends and linked.",
+    ref="DESIGN.md section 4 C06",
+    note=TRUST + "; f64/u64/u128 inputs and u32->{u32,u64,u128,f32,f64} are sampled (boundaries, powers of two, ties, random), not exhaustive; that all inputs inside a recorded sweep run gave the recorded code; tolerances half step + 4 ulp (float->int), half step + 16 ulp (narrowing), 16u (int->float), observed maxima 0.5 ulp / 0.5 ulp / 1.66u"),
  "C07": dict(
     technique="invariant `every call on a colour of the statement's domain returns finite components and does not panic` judged by TLC trace validation (TraceFinite.tla decides domain membership from the documented bounds in Types.tla with exact arithmetic) over the boundary lattice x API surface",
     category="model_checking",
